@@ -3499,7 +3499,8 @@ def _proc_mset(nas, se, dof):
     m = np.nonzero(mksetpv(uset, "g", "m"))[0]
     pvdofm = gm = None
     if m.size > 0:
-        iddof = uset.iloc[m, :0].reset_index().values
+        g = mksetpv(uset, "p", "g")
+        iddof = uset.iloc[g, :0].iloc[m].reset_index().values
         pvdofm = locate.mat_intersect(iddof, dof)[0]
 
         if pvdofm.size > 0:
@@ -3533,7 +3534,7 @@ def _formtran_0(nas, dof, gset):
         raise RuntimeError("neither nas['phg'][0] nor nas['pha'][0] are available.")
 
     o = np.nonzero(mksetpv(uset, "g", "o"))[0]
-    iddof = uset.iloc[:, :0].reset_index().values
+    iddof = uset.iloc[mksetpv(uset, "p", "g"), :0].reset_index().values
     if o.size > 0:  # pragma: no cover
         v = locate.mat_intersect(iddof[o], dof)[0]
         if v.size > 0:
@@ -3679,7 +3680,7 @@ def formtran(nas, se, dof, gset=False):
 
     sets = np.zeros(0, np.int64)
     t = np.nonzero(mksetpv(uset, "g", "t"))[0]
-    iddof = uset.iloc[:, :0].reset_index().values
+    iddof = uset.iloc[mksetpv(uset, "p", "g"), :0].reset_index().values
     pvdoft = locate.mat_intersect(iddof[t], dof)[0]
     hast = 0
     if pvdoft.size > 0:
